@@ -119,6 +119,18 @@ fn extract_fn_signatures_from_fixpoint<'a>(
                     .get_mut(state.get_current_function_tid())
                     .unwrap();
                 fn_sig.merge_with_fn_sig_of_state(state);
+                if let Node::BlkEnd(block, _) = graph[node] {
+                    if graph.edges(node).next().is_none() {
+                        // No transition function gets evaluated for the jumps of a dead end,
+                        // so their parameter accesses have to be added here.
+                        let context = fixpoint.get_context().get_context();
+                        let mut state = state.clone();
+                        for jump in block.term.jmps.iter() {
+                            context.set_access_flags_for_dead_end_jump(&mut state, jump);
+                        }
+                        fn_sig.merge_with_fn_sig_of_state(&state);
+                    }
+                }
             }
             Some(NodeValue::CallFlowCombinator {
                 call_stub,
